@@ -139,22 +139,34 @@ def run(ctx: Ctx) -> None:
     # ---- B4 ------------------------------------------------------------------------------------------
     ctx.rule("B4", "include_comments adds exactly propagate_positions and append-callbacks for ignored terminals; _assign_comments only attaches meta.comments", 4)
     fn = repo.func("parser.Parser._create_lalr_parser")
-    added = {}
-    cb_terms = []
-    cb_vals = []
-    for n in ast.walk(fn):
-        if isinstance(n, ast.Call) and isinstance(n.func, ast.Attribute) and n.func.attr == "update" and n.args and isinstance(n.args[0], ast.Dict):
-            gs = guards_at(fn, n)
-            if any(g.positive and norm(g.test) == "self.include_comments" for g in gs):
-                for k, v in zip(n.args[0].keys, n.args[0].values):
-                    added[fold(k)] = v
-        if isinstance(n, ast.Assign) and isinstance(n.value, ast.Dict) and isinstance(n.targets[0], ast.Name) and n.targets[0].id == "callbacks":
-            for k, v in zip(n.value.keys, n.value.values):
-                cb_terms.append(fold(k))
-                cb_vals.append(norm(v))
-    ctx.check(set(added) == {"propagate_positions", "lexer_callbacks"}, "B4", "parser options under include_comments", repo.loc("parser", fn), str(sorted(added)), f"include_comments adds parser options {sorted(added)}: anything beyond position propagation and lexer callbacks can change the tree")
+    # the constructor is evaluated with lark's entry point replaced by a recorder: what it is asked for
+    # with and without include_comments
+    asked: dict = {}
+
+    def mk_stub(flag):
+        def lark_open(fr, self_obj, args, kwargs):
+            asked.setdefault(flag, []).append((list(args), dict(kwargs)))
+            return SObj("Lark", {})
+
+        return lark_open
+
+    insts = {}
+    for flag in (False, True):
+        Ib = e.interp(stubs={"ext:lark.Lark": pai.ModRef("ext:lark.Lark"), "ext:lark.Lark.open": mk_stub(flag), "global:parser.lark_cython": None}, allow_fork=False)
+        insts[flag] = pai.Inst("parser.Parser")
+        outs = Ib.explore("parser.Parser.__init__", lambda flag=flag: (insts[flag], [], {"include_comments": flag}))
+        if len(outs) != 1 or outs[0].kind != "return" or len(asked.get(flag, [])) != 1:
+            raise AnalysisError(f"Parser.__init__(include_comments={flag}) not evaluable: {[(o.kind, o.exc) for o in outs]}, {len(asked.get(flag, []))} Lark.open call(s)")
+    (a0, k0), (a1, k1) = asked[False][0], asked[True][0]
+    added = {k: v for k, v in k1.items() if k not in k0 or k0[k] != v}
+    same_rest = a0 == a1 and all(k1.get(k) == v for k, v in k0.items())
+    ctx.check(same_rest and set(added) == {"propagate_positions", "lexer_callbacks"} and added.get("propagate_positions") is True, "B4", "parser options under include_comments", repo.loc("parser", fn), str(sorted(added)), f"with include_comments lark is asked for {sorted(added)} in addition (other arguments unchanged: {same_rest}): anything beyond position propagation and lexer callbacks can change the tree")
+    cbs = added.get("lexer_callbacks") if isinstance(added.get("lexer_callbacks"), dict) else {}
+    cb_terms = list(cbs.keys())
     ctx.check(bool(cb_terms) and all(t in G.ignore for t in cb_terms), "B4", "lexer callbacks only on ignored terminals", repo.loc("parser", fn), str(cb_terms), f"lexer callbacks registered for {cb_terms}; {[t for t in cb_terms if t not in G.ignore]} are not ignored terminals: their tokens would be replaced by the callback's return value")
-    ctx.check(all(v.endswith(".append") and "_comments" in v for v in cb_vals), "B4", "callbacks append to the comment buffer", repo.loc("parser", fn), str(cb_vals), f"callbacks are {cb_vals}")
+    buf = insts[True].attrs.get("_comments")
+    appenders = all(isinstance(v, pai.FuncRef) and v.builtin == "method:append" and v.self_obj is buf for v in cbs.values())
+    ctx.check(bool(cbs) and appenders and isinstance(buf, list), "B4", "callbacks append to the comment buffer", repo.loc("parser", fn), "bound append of self._comments", f"callbacks are {list(cbs.values())}")
     ac = repo.func("parser.Parser._assign_comments")
     stores = [n for n in ast.walk(ac) if isinstance(n, (ast.Assign, ast.AugAssign)) for t in (n.targets if isinstance(n, ast.Assign) else [n.target]) if isinstance(t, (ast.Attribute, ast.Subscript))]
     bad = [norm(s) for s in stores if not norm(s).startswith("node.meta.comments")]
@@ -227,9 +239,8 @@ def _comments_transformer(ctx: Ctx, e) -> None:
         return SObj("Meta", a)
 
     def ct():
-        inst = pai.Inst("transformer.CommentsTransformer")
-        inst.attrs["_mapfile_todict"] = I.instantiate("transformer.MapfileTransformer", [], {"include_comments": True})
-        return inst
+        # through the real constructor, so that the attribute holding the main transformer may be renamed
+        return I.instantiate("transformer.CommentsTransformer", [I.instantiate("transformer.MapfileTransformer", [], {"include_comments": True})], {})
 
     C1 = SStr(["# ", Atom("COMMENT_a", excludes=frozenset("\n"))])
     cases = [
